@@ -43,6 +43,14 @@ class _Break(Exception):
     pass
 
 
+class _BodyExit(Exception):
+    """The body of a `for` over a generator left the loop (break / return / raise): unwinds the generator's frames."""
+
+    def __init__(self, kind: str, payload: Any = None):
+        self.kind = kind
+        self.payload = payload
+
+
 class _StopAtLoop(Exception):
     def __init__(self, outcome: Any):
         self.outcome = outcome
